@@ -66,7 +66,7 @@ def main():
         if example:
             rc, out = sh(f"cargo run --offline -q -p ffuzzy --example {name} {demo_args} 2>&1 | tail -15; exit ${{PIPESTATUS[0]}}", wt, env)
             m = [["exit", str(rc)]]
-            demo_passes = rc == 0 and "property holds" in out
+            demo_passes = rc == 0 and "PROPERTY BROKEN" not in out
         else:
             rc, out = sh(f"cargo test --offline -p ffuzzy --test {name} {demo_args} 2>&1 | tail -15", wt, env)
             m = re.findall(r"test result: (\w+)\. (\d+) passed; (\d+) failed", out)
